@@ -34,7 +34,9 @@ func TestMain(m *testing.M) {
 		"numbers are compared by mathematical value (1 and 1.0 are the same output); NaN equals NaN",
 		"programs that do not terminate, read the environment/clock/inputs (now, env, $ENV, input, inputs, input_filename, localtime, halt, halt_error, $__loc__, modulemeta, builtins) are not generated",
 		"CLI sample: stdout lines are compared as JSON values with the reference outputs after a JSON round trip (NaN->null, infinite->max float), exit status zero iff the reference did not fail, stderr non-empty when it failed; output text formatting is not compared",
-		"a reference run that exceeds the harness time limit makes the pair inconclusive (counted, never a verdict)",
+		"all alternatives of a generated ?// bind the same variables: the embedded engine leaves the variables of alternatives that did not match uninitialised (they read dead call frames, gojq and fq alike), so a program that reads one has no defined reference result; the two hand-written seeds that do are listed as a finding",
+		"the left side of a generated update has no `a, b`: the embedded engine builds a self-containing array for `null | (.[0], .[:1]) |= [.]` that no Go code can print or compare",
+		"a reference run that exceeds the harness limits (8 s, 1.2 GiB heap, output nested deeper than 400) makes the pair inconclusive (counted, never a verdict)",
 	)
 	harness.Main(m, "C07")
 }
@@ -129,6 +131,8 @@ func refRun(prelude, prog string, input any) (o obs) {
 	defer cancel()
 	guardSet(cancel)
 	defer guardClear()
+	harness.Journal("gojq, input " + show(input) + "\n" + prelude + prog)
+	defer harness.JournalClear()
 	iter := code.RunWithContext(ctx, input)
 	for {
 		v, ok := iter.Next()
@@ -334,6 +338,10 @@ func (e *engine) fqBatch(t testing.TB, input any, progs []string) (res []obs, er
 			e.evals = 1 << 30
 		}
 	}()
+	// if the process dies in here (the engine can build values no Go code can walk) the
+	// driver reports the open batch
+	harness.Journal("fq batch, input " + show(input) + "\n" + strings.Join(progs, "\n"))
+	defer harness.JournalClear()
 	rs, berr := x.EvalBatch(ctx, input, progs)
 	if berr != nil {
 		return nil, berr, ctx.Err() != nil
@@ -588,7 +596,7 @@ func TestDiff(t *testing.T) {
 		harness.ExtraAdd("memory_guard_hits", guardHits.Swap(0))
 	}()
 	// totals are batches summed over all shards
-	harness.Rapid(t, 3200, 44800, func(rt *rapid.T, c *harness.Case) {
+	harness.Rapid(t, 3200, 40000, func(rt *rapid.T, c *harness.Case) {
 		input := jqgen.Value(rt, 3)
 		n := rapid.IntRange(1, batchSize).Draw(rt, "n")
 		if n < batchSize && rapid.IntRange(0, 9).Draw(rt, "full") > 0 {
